@@ -26,6 +26,7 @@ type UnitResult struct {
 	Obls    []*Obligation
 	Err     string // engine error (unsupported construct, stale contract)
 	Trusted []string
+	Lemmas  []*Axiom
 }
 
 func behName(b *Behaviour) string {
@@ -160,6 +161,9 @@ func (e *Engine) VerifyUnit(u *Unit) (res *UnitResult) {
 	}
 	fx.addAxioms(u.Con.Pkg)
 	res.Obls = c.obls
+	for ax := range fx.lemmasUsed {
+		res.Lemmas = append(res.Lemmas, ax)
+	}
 	for k := range fx.trustedUsed {
 		res.Trusted = append(res.Trusted, k)
 	}
@@ -190,19 +194,27 @@ func (fx *FnExec) addAxioms(pkg string) {
 			}
 			used[ax] = true
 			changed = true
-			env := &SpecEnv{fx: fx, pkg: ax.Pkg, vars: map[string]specVal{}, st: fx.entry, where: "axiom " + ax.Name}
-			if ax.Pkg == "" {
-				env.pkg = pkg
-			}
-			t := env.boolExpr(ax.Expr)
+			t := fx.lemmaTerm(ax, pkg)
 			kind := "axiom"
 			if ax.Lemma {
 				kind = "lemma"
 			}
 			fx.c.Axiom(kind+" "+ax.Name, t)
-			fx.trusted(kind + " " + ax.Name + ": " + ax.Text)
+			if ax.Lemma {
+				fx.usedLemma(ax)
+			} else {
+				fx.trusted("axiom " + ax.Name + ": " + ax.Text)
+			}
 		}
 	}
+}
+
+func (fx *FnExec) usedLemma(ax *Axiom) {
+	r := fx.root()
+	if r.lemmasUsed == nil {
+		r.lemmasUsed = map[*Axiom]bool{}
+	}
+	r.lemmasUsed[ax] = true
 }
 
 func collectCalls(e *SExpr, out map[string]bool) {
@@ -390,4 +402,32 @@ func (fx *FnExec) knownExternal(st *State, full string, fn *ssa.Function, args [
 		return []*Term{v}, true
 	}
 	return nil, false
+}
+
+// VerifyAll verifies the units and, transitively, every lemma they use.
+func (e *Engine) VerifyAll(units []*Unit, each func(*UnitResult)) {
+	done := map[*Axiom]bool{}
+	var queue []*Axiom
+	add := func(r *UnitResult) {
+		ls := append([]*Axiom{}, r.Lemmas...)
+		sort.Slice(ls, func(i, j int) bool { return ls[i].Name < ls[j].Name })
+		for _, l := range ls {
+			if !done[l] {
+				done[l] = true
+				queue = append(queue, l)
+			}
+		}
+	}
+	for _, u := range units {
+		r := e.VerifyUnit(u)
+		add(r)
+		each(r)
+	}
+	for len(queue) > 0 {
+		l := queue[0]
+		queue = queue[1:]
+		r := e.VerifyLemma(l)
+		add(r)
+		each(r)
+	}
 }
